@@ -436,6 +436,8 @@ def canon(v, depth=0):
         if len(r) > 400:
             r = r[:400] + f"...#{len(r)}"
         return t + ":" + r
+    if callable(v):
+        return "callable:<object>"  # CPython functions / pyscript's function objects / Fn alike
     return t + ":<object>"
 
 
@@ -549,8 +551,13 @@ async def main():
                     if not seeded:
                         res["nat_ps"] = await one_native(new_interp, case, "ps")
                         res["nat_py"] = await one_native(new_interp, case, "py")
-                    res["ps"] = await one_tape(new_interp, case, "ps", seeded)
-                    res["py"] = await one_tape(new_interp, case, "py", seeded)
+                    if case.get("nomodel"):
+                        # node types outside the Coq model (lambda): the native comparison alone (search oracle)
+                        res["ps"] = res["py"] = {"tape": [], "env": [], "exc": None, "init": [], "bad": None, "truths": [],
+                                                 "unhashable": []}
+                    else:
+                        res["ps"] = await one_tape(new_interp, case, "ps", seeded)
+                        res["py"] = await one_tape(new_interp, case, "py", seeded)
                 except BaseException as e:  # pylint: disable=broad-except
                     res = {"error": f"{type(e).__name__}: {e}"}
                 out.append(res)
